@@ -303,6 +303,93 @@ class D18(Extra):
         return 'ok', None
 
 
+# ---------------------------------------------------------------- C06
+SEMS = ['standard', 'output-robustness', 'input-robustness', 'output-vacuity', 'input-vacuity']
+
+
+class D06(Extra):
+    RULE = ('dense-time formulas x 5 semantics x input/output assignments: dense offline evaluate() and (past-time formulas) dense online update() of the IA-STL '
+            'specification classes against the tick semantics rhoZ in which every insensitive predicate contributes +-inf / 0 (pk_spec)')
+
+    def gen(self, rng, tier):
+        out = []
+        n = 120 if tier == 'quick' else 2000
+        P0 = ('pred', 'geq', ('var', 0), ('const', 1))
+        P01 = ('pred', 'leq', ('a2', 'add', ('var', 0), ('var', 1)), ('const', 3))
+        PC = ('pred', 'lt', ('const', 1), ('const', 2))
+        base = [P0, P01, ('and', P0, P01), ('once', ('or', PC, P0)), ('since', P0, P01), ('alwt', 0, 2, P01), ('pred', 'eq', ('var', 0), ('var', 0)),
+                ('pred', 'gt', ('a1', 'abs', ('var', 1)), ('var', 0)), ('oncet', 0, 2, P0), ('pred', 'lt', ('var', 0), ('const', 2))]
+        items = [(f, 2) for f in base for _ in range(3)]
+        for _ in range(n):
+            nv = rng.choice([1, 2, 2, 3])
+            f = gen_formula(rng, nv, rng.choice([0, 1, 1, 2, 2]), iffxor=False)
+            if fml.size(f) > 20 or not fml.fvars(f):
+                continue
+            items.append((f, nv))
+        for (f, nv) in items:
+            nv = need_vars(f, nv)
+            out.append({'f': f, 'nv': nv, 'sigs': gen_sigs(rng, nv, minn=1), 'io': [rng.randint(0, 1) for _ in range(nv)], 'sem': rng.choice(SEMS),
+                        'ctor': rng.choice(['combined', 'split']), 'n': 0})
+        return out
+
+    def online(self, c):
+        return not fml.has_future(c['f'])
+
+    def model_lines(self, c):
+        t0, tmax, tmin = domain(c['f'], c['sigs'])
+        io = ' '.join(str(b) for b in c['io'])
+        return ['(rhoz (iaspec %s (%s)) %s (%s) %d %d)' % (c['sem'], io, fml.to_sx(c['f']), sigs_sx(c['sigs']), t0, max(tmax, t0) + 8)]
+
+    def impl_cases(self, c):
+        io = {fml.VARS[i]: ('input' if c['io'][i] else 'output') for i in range(c['nv'])}
+        kw = {'io': io, 'semantics': c['sem'], 'ctor': c.get('ctor', 'combined')}
+        out = [offline_case(c['f'], c['sigs'], c['nv'], **kw)]
+        if self.online(c):
+            out.append(online_case(c['f'], c['sigs'], c['nv'], **kw))
+        return out
+
+    def judge(self, c, mlines, ires):
+        if mlines[0].startswith('ERROR'):
+            return 'model-error', mlines
+        if not dense.dn_exact(mlines[0]):
+            return 'dropped', None
+        t0, tmax, tmin = domain(c['f'], c['sigs'])
+        spec = dense.parse_rhoz(mlines[0], t0)
+        det = {'spec': 'out = ' + text(c['f']), 'semantics': c['sem'], 'io': c['io'], 'constructor': c.get('ctor'), 'signals_ticks': c['sigs'], 'tick_s': dense.SCALE,
+               'expected': {'source': 'rhoZ with pk_spec (insensitive predicates contribute +-inf / 0), per tick from the start of the domain', 'values': [fml.val_sx(spec[t]) for t in sorted(spec)]}}
+        if any(c['sigs'][i][0][0] != 0 for i in fml.fvars(c['f'])) and (fml.ops(c['f']) & (fml.TUN | fml.TBIN)):
+            return 'dropped', None      # KF-C04-late-start territory
+        for k, i in enumerate(ires):
+            mon = 'dense-offline' if k == 0 else 'dense-online'
+            if i['setup']['status'] != 'ok':
+                return 'violation', dict(det, monitor=mon, observed=i['setup'])
+            kk, v = call_value(i['calls'][0])
+            if kk != 'ok':
+                if k == 1 and self.const_binary(c['f']):
+                    continue                 # KF-C05-const-binary
+                return 'violation', dict(det, monitor=mon, observed=v)
+            if not v:
+                if k == 1:
+                    continue             # the online monitor may not have settled anything yet (C05 covers what it emits)
+                return 'violation', dict(det, monitor=mon, observed='empty result')
+            hi = tmax if k == 0 else max([t for t, _ in v if t != math.inf] or [t0])
+            d = dense.compare_ticks(spec, v, max(t0, v[0][0]), hi)
+            if d is not None:
+                return 'violation', dict(det, monitor=mon, observed=d, observed_value=i['calls'][0]['value'])
+            if v[0][0] != t0:
+                return 'violation', dict(det, monitor=mon, observed={'starts_at_tick': v[0][0], 'domain_starts_at_tick': t0})
+        return 'ok', None
+
+    def const_binary(self, g):
+        ks = fml.children(g)
+        if len(ks) == 2 and not fml.fvars(ks[0]) and not fml.fvars(ks[1]):
+            return True
+        return any(self.const_binary(k) for k in ks)
+
+    def features(self, c):
+        return ['dense', 'dense-sem:' + c['sem']]
+
+
 # ---------------------------------------------------------------- C10
 class D10(Extra):
     RULE = ('dense-time online monitors: past-time (and pastified bounded-future) formulas, a history of 0-3 update() batches, reset() (also twice, also before the '
